@@ -91,6 +91,9 @@ def cvc5_check(solver, tlimit_ms):
     import subprocess
     import tempfile
     smt = '(set-logic ALL)\n' + solver.to_smt2()
+    # z3 prints some one-character string literals as (seq.unit (_ Char n)), which cvc5 1.0 does not read
+    import re as _re
+    smt = _re.sub(r'\(seq\.unit \(_ Char (\d+)\)\)', lambda m: '"\\u{%x}"' % int(m.group(1)), smt)
     fd, path = tempfile.mkstemp(suffix='.smt2')
     try:
         with os.fdopen(fd, 'w') as f:
@@ -98,7 +101,11 @@ def cvc5_check(solver, tlimit_ms):
         r = subprocess.run(['/usr/bin/cvc5', '--strings-exp', f'--tlimit={tlimit_ms}', path], capture_output=True, text=True,
                            timeout=tlimit_ms / 1000 + 10)
         out = r.stdout.strip().splitlines()
-        return out[0] if out and out[0] in ('sat', 'unsat') else 'unknown'
+        ans = out[0] if out and out[0] in ('sat', 'unsat') else 'unknown'
+        if ans == 'unknown' and os.environ.get('PYVC_DUMP_UNKNOWN'):
+            import shutil
+            shutil.copy(path, os.environ['PYVC_DUMP_UNKNOWN'])
+        return ans
     except Exception:   # noqa
         return 'unknown'
     finally:
